@@ -24,11 +24,12 @@ def run(repo, chk):
     chk.note_undecided('numerical equality of cached, uncached and masked passes', 'independence from batch composition (depends on torch kernels)')
     R = Rules(repo, chk)
     refcheck.run_all(R, repo, chk, 'RECUR', 'transformer_ref.py', WHAT)
+    refcheck.run_all(R, repo, chk, 'RECUR', 'nets_ref.py', {'te_init': 'boundary and ignore symbols are the last two entries of the extended character table', 'ocr_init': 'causal mask, positional encoding, embedding and output projection sized by the class count'}, only=('te_init', 'build_net', 'ocr_init', 'pe_init'))
     R.run('IDXPAIR', idxpair, repo, Soft(chk), soft_for=[T + ':CustomMultiheadAttention.cached_forward', T + ':DecoderLayer.infer'])
     R.run('FACTS', facts, repo, Soft(chk), soft_for=[E + ':TransformerEngineLineOCR.transcribe_batch', E + ':TransformerEngineLineOCR.postprocess_decoded'])
     chk.expect('IDXPAIR', 6)
     chk.expect('FACTS', 5)
-    chk.expect('RECUR', 15)
+    chk.expect('RECUR', 19)
 
 
 def _sub_stores(fi, field):
